@@ -151,6 +151,15 @@ var Features = []Feature{
 		t := d.Table("t")
 		t.Cols = append(t.Cols, Col{Name: "r", Type: "text", NotNull: true, Default: "\"it's\""})
 	}},
+	// numeric default spelled with an exponent; BLOB literal default.
+	{Name: "col_v_default_exponent", Apply: func(d *DB) {
+		t := d.Table("t")
+		t.Cols = append(t.Cols, Col{Name: "v", Type: "real", Default: "1e3", DefExpr: true})
+	}},
+	{Name: "col_w_default_blob", Apply: func(d *DB) {
+		t := d.Table("t")
+		t.Cols = append(t.Cols, Col{Name: "w", Type: "blob", Default: "X'ABCD'", DefExpr: true})
+	}},
 	{Name: "col_h_virtual", Apply: func(d *DB) {
 		t := d.Table("t")
 		t.Cols = append(t.Cols, Col{Name: "h", Type: "integer", Gen: "id + 1"})
@@ -215,6 +224,11 @@ var Features = []Feature{
 	}},
 	{Name: "check_named", Apply: func(d *DB) { t := d.Table("t"); t.Checks = append(t.Checks, Check{Name: "ck_a", Expr: "a > 0"}) }},
 	{Name: "check_unnamed", Apply: func(d *DB) { t := d.Table("t"); t.Checks = append(t.Checks, Check{Expr: "id < 1000"}) }},
+	// an expression whose first and last bytes are parentheses that do not match each other.
+	{Name: "check_two_groups", Apply: func(d *DB) {
+		t := d.Table("t")
+		t.Checks = append(t.Checks, Check{Name: "ck_two", Expr: "(a > 0) AND (id > 0)"})
+	}},
 	{Name: "check_paren_literal", Apply: func(d *DB) {
 		t := d.Table("t")
 		t.Checks = append(t.Checks, Check{Name: "ck_b", Expr: "b <> ')'"})
